@@ -81,6 +81,29 @@ SvdLemma ==
                  /\ SumR(LAMBDA j : v[j + 1] * v[j + 1], 0, n - 1) = v2
                  /\ I.gap[r + 1] >= 1 /\ I.gap[r + 1] <= sv[r]
                  /\ \A t \in 0 .. k - 1 : s[t] # sv[r] => Abs(s[t] - sv[r]) >= I.gap[r + 1]
+       \* the printed path labels are the path-selection model's: total, and a fast length exactly on the
+       \* paths that have a fast variant
+       /\ \A t \in 1 .. 9 :
+            LET pf == I.paths[t] IN
+            /\ pf[1] = GesvdPath(m, n, (t - 1) \div 3, (t - 1) % 3)
+            /\ (k = 0) = (pf[1] = 0)
+            /\ k > 0 => pf[1] \in AllGesvdPaths
+            /\ (pf[2] > 0) = (pf[1] \in {4, 6, 7, 9, 14, 16, 17, 19})
+            /\ pf[2] > 0 => pf[2] >= k * k + 5 * k
+
+(* Coverage theorem of the path-selection model: on the shapes of the case space with min(m,n) >= 2 *)
+(* every path of Dgesvd that gonum implements is selected, and every job pair meets its QR-first   *)
+(* path, its LQ-first path and both direct paths (10, 10t).  Checked once (it does not depend on   *)
+(* the state).                                                                                    *)
+PathShapes == {<<x.m, x.n>> : x \in {y \in Cases : Min(y.m, y.n) >= 2}}
+PathCover ==
+  Fam = "svd" =>
+    /\ {GesvdPath(z[1], z[2], ju, jv) : z \in PathShapes, ju \in 0 .. 2, jv \in 0 .. 2} = AllGesvdPaths
+    /\ \A ju, jv \in 0 .. 2 :
+         LET P == {GesvdPath(z[1], z[2], ju, jv) : z \in PathShapes} IN
+         /\ 10 \in P /\ 20 \in P
+         /\ P \cap {1, 4, 6, 7, 9} # {} /\ P \cap {11, 14, 16, 17, 19} # {}
+ASSUME PathCover
 
 GevLemma ==
   Fam = "gev" =>
